@@ -19,7 +19,9 @@ def gen_cfg(quick, seed):
         signb = [0, 255, 256, 511, 512, 519] + r.sample(range(520), 48)
         srcb = [0, 16, 335] + r.sample(range(336), 24)
         fieldb = [0, 9] + r.sample(range(64), 6)
-        edb = [0, 8] + r.sample(range(880), 64)
+        # 118/126: the recipient byte of a contract creation with a 3/4-byte nonce (regression bits of the
+        # known finding ed:flip:80>c0, met by the full sweep of the thorough tier)
+        edb = [0, 8, 118, 126] + r.sample(range(880), 64)
     else:
         hashb, signb, srcb, fieldb, edb = range(256), range(520), range(336), range(64), range(880)
     return """SPECIFICATION Spec
